@@ -544,9 +544,24 @@ Contract(
 # ---------------------------------------------------------------------------
 # C18: marginalisation -- for each remaining world the least rank of its extensions
 # ---------------------------------------------------------------------------
-# the bit deletion itself (a string comprehension) is abstracted as PJ(world, signature, marginalization): what is
-# proved is the grouping-and-minimum structure and the new signature; the bit positions are Engine B's (bounded) part
-PJ = z3.Function("PJ", StrSort, LStr.sort, LStr.sort, StrSort)
+# the bit deletion is proved against KeptChars (loop invariant of the string comprehension); PJ(world) is the string joined
+# from those characters
+# KeptChars(w, sig, marg, n): the characters of w at the positions i < n whose atom sig[i] is not marginalised away, in order
+KeptChars = L.prefix_fun(
+    "KeptChars",
+    [StrSort, LStr.sort, LStr.sort],
+    LStr.sort,
+    lambda w, sig, marg: LStr.nil,
+    lambda w, sig, marg, i, prev: z3.If(mem_Str(marg, LStr.at(sig, i)), prev, LStr.snoc(prev, chr_at(w, i))),
+    max_chain=1,
+)
+
+
+def PJ(w, sig, marg):
+    """the projection of a world: the string made of its bits at the positions of the atoms that are kept"""
+    return lib.join_chars(KeptChars(w, sig, marg, strlen(w)))
+
+
 _ValS = z3.ArraySort(StrSort, _OI.sort())
 _MSORTS = [LStr.sort, _ValS, LStr.sort, LStr.sort, StrSort, L.Int, L.Int]  # keys, val, sig, marg, new world, rank, bound
 
@@ -659,29 +674,34 @@ Contract(
     note="the factory returns an object holding the ranks and a non-empty signature unchanged",
 )
 
-_JOIN = "''.join([world[i] for i in range(len(world)) if self.signature[i] not in marginalization])"
+def _worlds_fit(c):
+    """every world of the ranking has one character per atom of the signature"""
+    p = z3.Int("_wf_p")
+    sig = c.field(c.self, "signature")
+    ks = _keys(c)
+    return Forall([p], [LStr.at(ks, p)], z3.Implies(z3.And(0 <= p, p < LStr.len(ks), z3.Not(sig.isnone)), strlen(LStr.at(ks, p)) == LStr.len(sig.val.t)), "worlds.fit.signature")
+
 
 Contract(
     "inference.preocf:PreOCF.marginalize",
     params={"self": MOCF, "marginalization": TList(TStr)},
     returns=COCF,
-    locals={"ranks": RanksT},
+    locals={"ranks": RanksT, "_lc0": TList(TStr)},
     ensures=_marg_post,
     ghost_out={"kept": TList(TInt)},
     ghost_wit=lambda c, r: {"kept": c._st.env.get("__filter_pos_last", VList(LIntL.nil, TInt))},
     raises={"ValueError": lambda c: c.field(c.self, "signature").isnone, "TypeError": lambda c: z3.BoolVal(True)},
-    abstractions={
-        _JOIN: (
-            lambda s: VStr(PJ(s.world.t, s.field(s.self, "signature").val.t, s.marginalization.t)),
-            "ASSUMED (PJ): the bit deletion is a function PJ(world, signature, marginalization) of its inputs; which bits "
-            "it deletes is compared with the definition by Engine B (bounded, C18)",
-        )
+    requires=lambda c: [_worlds_fit(c)],
+    loops={
+        0: LoopSpec("for world in self.ranks.keys()", _marg_inv),
+        "lc0": LoopSpec("[... for i in range(len(world))]", lambda s, j, pre: [s._st.env["_lc0"].t == KeptChars(s.world.t, s.field(s.self, "signature").val.t, s.marginalization.t, j)]),
     },
-    loops={0: LoopSpec("for world in self.ranks.keys()", _marg_inv)},
     properties=["C18"],
     fuel=4,
     note="every projected world that has a ranked extension gets the least rank of its ranked extensions (attained and a lower "
-    "bound); no other key; the new signature is the subsequence of the atoms not marginalised away (ghost output: kept positions)",
+    "bound); no other key; the projection of a world is the string of its bits at the positions of the kept atoms (KeptChars, loop "
+    "invariant of the string comprehension); the new signature is the subsequence of the atoms not marginalised away (ghost output: "
+    "kept positions)",
 )
 
 
